@@ -14,8 +14,8 @@ from harness.tlc import MachineryError
 
 CONDS = [["healthy"], ["down", 0], ["down", 1], ["blackhole", 0], ["blackhole", 1], ["failover", 1, 1], ["failover", 1, 0],
          ["alldown"], ["allblack"]]
-WORKLOADS = ["group", "group-static", "group-noauto", "group-follower", "assign", "assign-group", "producer", "idem", "txn"]
-CFG = {"group": "consumer", "group-static": "static", "group-noauto": "consumer", "group-follower": "consumer", "assign": "assign", "assign-group": "consumer",
+WORKLOADS = ["group", "group-static", "group-noauto", "group-follower", "group-badassign", "assign", "assign-group", "producer", "idem", "txn"]
+CFG = {"group": "consumer", "group-static": "static", "group-noauto": "consumer", "group-follower": "consumer", "group-badassign": "consumer", "assign": "assign", "assign-group": "consumer",
        "producer": "producer", "idem": "producer", "txn": "producer"}
 
 
@@ -95,6 +95,9 @@ def base_scenario(rng, wl):
     if wl == "group-follower":
         sc["other_first"] = True
         sc["other"] = None
+    if wl == "group-badassign":
+        sc["bad_assignor"] = True
+        sc["other"] = 0.25
     if wl == "group-static":
         sc["static"] = True
     if wl == "group-noauto":
